@@ -433,10 +433,10 @@ func checkC15(c *Ctx) {
 			sprintf("%s reaches a method handler without passing the middleware chain: %s", fname(sh), bypass))
 	}
 	// notification path: functions implementing handleNotification never read the middleware slice
-	reqH := c.P.RootNamed("requestHandler")
+	reqH := c.dispatcherIface()
 	if reqH != nil {
 		for _, T := range c.P.Implementers(reqH.Underlying().(*types.Interface)) {
-			hn := c.P.Method(T, "handleNotification")
+			hn := c.P.Method(T, ifaceMethodTaking(reqH.Underlying().(*types.Interface), "*mcp.JSONRPCNotification"))
 			if hn == nil {
 				continue
 			}
